@@ -195,7 +195,7 @@ func genExt4History(r *core.Rng, tier string, idx int, wide bool) *core.Trace {
 			t.Ops = append(t.Ops, core.Op{K: "reopen", A: int64(r.Intn(2))})
 		case 10:
 			// directory growth: many entries in one directory
-			t.Ops = append(t.Ops, core.Op{K: "manyfiles", P: pickDir(), A: r.Range(20, 150)})
+			t.Ops = append(t.Ops, core.Op{K: "manyfiles", P: pickDir(), A: r.Range(20, 150), B: int64(r.PickW(70, 30)), C: int64(r.PickW(65, 35))})
 		case 11:
 			t.Ops = append(t.Ops, core.Op{K: "fragment", P: pickDir(), A: r.Range(3, 12), B: r.Range(1, 20) * 1024})
 		}
@@ -913,9 +913,16 @@ func (x *ext4Run) step(o core.Op) *core.Violation {
 		if n > 400 {
 			n = 400
 		}
+		var made []string
 		for i := int64(0); i < n; i++ {
 			x.seq++
-			p := strings.Trim(o.P+"/"+fmt.Sprintf("many-%04d.file", x.seq), "/")
+			name := fmt.Sprintf("many-%04d.file", x.seq)
+			if o.B == 1 {
+				// names of more than 200 bytes, four to a 1 KiB block, and a block of data written to each file right
+				// after it is made: the directory's blocks end up scattered between the files' blocks
+				name = fmt.Sprintf("many-%04d-", x.seq) + strings.Repeat("n", 230) + ".f"
+			}
+			p := strings.Trim(o.P+"/"+name, "/")
 			ok, v := x.createFile(p)
 			if v != nil {
 				return v
@@ -923,8 +930,31 @@ func (x *ext4Run) step(o core.Op) *core.Violation {
 			if !ok {
 				break
 			}
+			made = append(made, p)
+			if o.B == 1 {
+				x.lastErr = false
+				if v := x.writeFile(p, 0, core.PatternBytes(uint64(x.seq), 700), false); v != nil {
+					return v
+				}
+				if x.lastErr {
+					break
+				}
+			}
 		}
 		x.res.Probe("dir-growth")
+		if o.C == 1 {
+			// ... and the directory shrinks again: three quarters of what was just made are removed
+			for k, p := range made {
+				if k%4 == 3 {
+					continue
+				}
+				if v := x.step(core.Op{K: "remove", P: p}); v != nil {
+					return v
+				}
+			}
+			x.trig = "manyfiles(shrink)"
+			x.res.Probe("dir-shrink")
+		}
 	case "fragment":
 		// interleaved appends to two files so that their extents fragment
 		par := m.get(o.P)
